@@ -3,7 +3,7 @@
    stack_spiller.py / _stack_reorder tied by exact-output differential + EVM execution. *)
 From Coq Require Import ZArith List Bool.
 From Verif Require Import Base.PyInt C14S.PyList C14S.StackSpec C14S.StackSpecProofs C14S.GenStackModel C14S.TieStackModel
-  C14S.Spill C14S.SpillProofs C14S.SpillInv C14S.ReorderProofs C14S.ReorderFull C14S.CallProofs.
+  C14S.Spill C14S.SpillProofs C14S.SpillInv C14S.ReorderProofs C14S.ReorderFull C14S.CallProofs C14S.FrameProofs.
 Import ListNotations.
 Open Scope Z_scope.
 
@@ -175,6 +175,22 @@ Theorem invoke_ret_correct : forall args a m s d RL rets body,
     live_inv s' d' /\ forallb depth_ok new = true.
 Proof. exact invoke_ret_correct_thm. Qed.
 Print Assumptions invoke_ret_correct.
+
+(* spill regions across functions (defect c14s:spill-region-aliases-caller-frame: the cursor started at fn_eom[fn], inside
+   the caller's frame).  With set_current_function's rule  cursor = max(max fn_eom, peak_spill_end)  (Spill.start_fn),
+   whatever each function does with the spiller (any sequence of slot requests and releases of its own slots):
+   every spill word of every function starts at or above the end of EVERY function's static frame (frames lie in
+   [0, fn_eom[g])), and the words of different functions are disjoint (an earlier function's words end below every
+   later function's slots).  Hence a callee can never overwrite a caller's memory-passed arguments, memory locals or
+   spilled operands, for any call graph. *)
+Theorem spill_regions_disjoint_across_calls : forall eoms fns s us,
+  run_fns eoms fns s = Some us ->
+  (forall u o e, In u us -> In o u -> In e eoms -> e <= o) /\ regions_ordered us.
+Proof. exact spill_regions_disjoint_across_calls_thm. Qed.
+Print Assumptions spill_regions_disjoint_across_calls.
+Example regions_example :
+  run_fns [0; 480] [[SGet; SGet; SFree [480]; SGet]; [SGet]] (mkSp [] 0 0) = Some [[480; 512; 480]; [544]].
+Proof. vm_compute. reflexivity. Qed.
 
 (* non-vacuity: a 40-deep swap and a 30-deep dup on concrete stacks *)
 Definition big := map Z.of_nat (seq 1 41).
